@@ -119,8 +119,9 @@ fn alphabet(thorough: bool) -> Vec<Event> {
     }
     for uri in 0..2 {
         if thorough {
-            for t1 in 0..TEXTS.len() {
-                for t2 in 0..TEXTS.len() {
+            // two content changes in one notification: every ordered pair of the six texts that differ in more than layout
+            for t1 in 0..6 {
+                for t2 in 0..6 {
                     if t1 != t2 {
                         evs.push(Event { kind: Kind::Change2, uri, t1, t2 });
                     }
